@@ -216,7 +216,7 @@ Definition ex_script_injected : script :=
      sc_closes := false |}.
 Example C17_nonvacuous_injected :
   trun ex_oracles ex_script_injected
-  = [TE false (Reply 220%N); TE false (Note NBoundary); TE false (Note NHelo); TE false (Reply 250%N); TE false (Note NBadReset); TOffer;
+  = [TE false (Reply 220%N); TE false (Note NBoundary); TE false (Note NHelo); TE false (Note (NEsmtp true)); TE false (Reply 250%N); TE false (Note NBadReset); TOffer;
      TE false (Reply 503%N); TE false (Note NBad); TE false (Reply 503%N)].
 Proof. vm_compute. reflexivity. Qed.
 
